@@ -1,6 +1,6 @@
 #!/bin/bash
 # usage: tools/silence.sh <tier> <seed>...   runs every check of MANIFEST.json on the current tree and lists non-zero exits
-cd /verif
+cd "$(dirname "$0")/.." || exit 2
 tier=$1; shift
 for seed in "$@"; do
   for id in C01 C02 C03 C04 C05 C06 C07 C08 C09 C10 C11 C12 C13 C14 C15 C16 C17 C18 C19 C20; do
@@ -8,6 +8,6 @@ for seed in "$@"; do
     out=$(VERIF_SEED=$seed ./check $id $tier 2>&1); rc=$?
     e=$(( $(date +%s) - s ))
     echo "seed=$seed $id $tier exit=$rc ${e}s $(echo "$out" | grep -E 'evaluations' | tail -1)"
-    if [ $rc != 0 ]; then echo "$out" | tail -30 | sed 's/^/    /'; mkdir -p /tmp/silence_fail; cp -r replays/new /tmp/silence_fail/$id-$seed 2>/dev/null; fi
+    if [ $rc != 0 ]; then echo "$out" | tail -30 | sed 's/^/    /'; mkdir -p silence_fail; cp -r replays/new silence_fail/$id-$tier-$seed 2>/dev/null; fi
   done
 done
